@@ -134,7 +134,7 @@ func c12Sig(kind string, r c12Rule, peer string, xff bool) string {
 
 func TestVerifC12Rules(t *testing.T) {
 	L := ev.Begin("C12", "c12-rules", "exploration",
-		"every allow/deny list of 1..2 items from 17 items (v4/v6 blocks and single addresses, blocks nested in wider ones with the same base address, case/space variants, /33, /129, bad address, empty, unknown type, missing type, double slash) x 10 peers (incl. zone-scoped and v4-mapped v6) x X-Forwarded-For in {none, inside, outside, inside+outside, garbage, peer itself, chains with unparsable elements before/between addresses, the chain spread over two header lines, elements with port or brackets}, through NewTable opts -> Target.AccessDeniedHTTP and AccessDeniedTCP; also allow+deny together. oracle (netip): allow admits only inside the well-formed blocks, deny rejects inside them, a malformed item never widens. non-trivial = rule with >=1 well-formed block and a peer inside it, or a malformed item")
+		"every allow/deny list of 1..2 items from 17 items (v4/v6 blocks and single addresses, blocks nested in wider ones with the same base address, case/space variants, /33, /129, bad address, empty, unknown type, missing type, double slash) x 10 peers (incl. zone-scoped and v4-mapped v6) x X-Forwarded-For in {none, inside, outside, inside+outside, garbage, peer itself, chains with unparsable elements before/between addresses, the chain spread over two header lines, elements with port or brackets, zone-scoped elements}, through NewTable opts -> Target.AccessDeniedHTTP and AccessDeniedTCP; also allow+deny together. oracle (netip): allow admits only inside the well-formed blocks, deny rejects inside them, a malformed item never widens. non-trivial = rule with >=1 well-formed block and a peer inside it, or a malformed item")
 	var rules []c12Rule
 	for _, k := range []string{"allow", "deny"} {
 		for i, a := range c12Items {
@@ -148,7 +148,9 @@ func TestVerifC12Rules(t *testing.T) {
 	}
 	xffs := []string{"", "10.9.9.9", "172.16.0.1", "10.9.9.9, 172.16.0.1", "garbage", "@peer", " 10.9.9.9 ,, ", "unknown, 172.16.0.1", "10.9.9.9:4711, 172.16.0.1", "garbage, 10.9.9.9", "unknown, 10.9.9.9, x, 172.16.0.1",
 		// the chain spread over two header lines, and elements that carry a port or brackets
-		"10.9.9.9\n172.16.0.1", "172.16.0.1\n10.9.9.9", "172.16.0.1:5555", "10.9.9.9:80, [2001:db8::1]:443", "[fe80::1]"}
+		"10.9.9.9\n172.16.0.1", "172.16.0.1\n10.9.9.9", "172.16.0.1:5555", "10.9.9.9:80, [2001:db8::1]:443", "[fe80::1]",
+		// a zone-scoped element (an address like any other), alone and behind an admitted one
+		"fe80::1%eth0", "10.9.9.9, fe80::1%eth0"}
 	for _, r := range rules {
 		opt := r.kind + "=" + strings.ReplaceAll(strings.Join(r.items, ","), " ", " ")
 		// spaces cannot be written inside opts "..." (fields are split on white space): use the
